@@ -1,13 +1,17 @@
 #!/bin/sh
-# usage: tools_matrix.sh [tier]   Runs, for every seed in /verif/seeded, the check of the property it was written for
-# (plus extra checks listed in seeded/<id>/also.txt) and writes /verif/seeded/RESULTS.txt.
-TIER=${1:-quick}
+# usage: tools_matrix.sh [tier] [parallel]
+# Runs, for every seed in /verif/seeded, the check of the property it was written for (plus the checks listed in
+# seeded/<id>/also.txt) in an isolated scratch worktree + harness copy (tools_seedtest_iso.sh: /repo and /verif stay
+# untouched) and writes /verif/seeded/RESULTS.txt.
+TIER=${1:-quick}; PAR=${2:-2}
 OUT=/verif/seeded/RESULTS.txt
-: > $OUT.tmp
-for d in /verif/seeded/C*/; do
+TMP=$(mktemp -d /dev/shm/matrix.XXXXXX)
+ls -d /verif/seeded/C*/ | while read d; do
   n=$(basename $d); prop=${n%-*}
   checks="$prop"; [ -f $d/also.txt ] && checks="$checks $(cat $d/also.txt)"
-  /verif/tools_seedtest.sh $d/patch.diff $TIER $checks | grep '^seed=' | sed 's/KNOWN-FINDING.*//' | cut -c1-200 >> $OUT.tmp
-done
-mv $OUT.tmp $OUT
-grep -c "rc=1" $OUT; grep "rc=0\|rc=2" $OUT
+  echo "$n $checks"
+done > $TMP/jobs
+xargs -P $PAR -L 1 sh -c '/verif/tools_seedtest_iso.sh /verif/seeded/$0/patch.diff '"$TIER"' "$@" | grep "^seed=" | sed "s/KNOWN-FINDING.*//" | cut -c1-200 > '"$TMP"'/$0.out' < $TMP/jobs
+cat $TMP/*.out | sort > $OUT
+rm -rf $TMP
+echo "detected (rc=1): $(grep -c 'rc=1' $OUT) lines; not detected by that check:"; grep "rc=0\|rc=2" $OUT
